@@ -42,12 +42,34 @@ def _by_key(repo: Repo, key: str) -> ClassInfo:
     raise KeyError(key)
 
 
+_NEG = {ast.NotEq: ast.Eq, ast.IsNot: ast.Is, ast.NotIn: ast.In}
+
+
+def positive(test: ast.expr) -> Tuple[ast.expr, bool]:
+    """(equivalent positive test, was_negated) for `not T`, `a != b`, `a is not b`, `a not in b`"""
+    neg = False
+    while isinstance(test, ast.UnaryOp) and isinstance(test.op, ast.Not):
+        test, neg = test.operand, not neg
+    if isinstance(test, ast.Compare) and len(test.ops) == 1 and type(test.ops[0]) in _NEG:
+        t2 = ast.Compare(left=test.left, ops=[_NEG[type(test.ops[0])]()], comparators=test.comparators)
+        ast.copy_location(t2, test)
+        return t2, not neg
+    return test, neg
+
+
 def chain_of(if_node: ast.If) -> List[Tuple[Optional[ast.expr], List[ast.stmt], ast.AST]]:
     out = []
     cur = if_node
     while True:
+        pt, neg = positive(cur.test)
+        terminal = not (len(cur.orelse) == 1 and isinstance(cur.orelse[0], ast.If))
+        if neg and terminal:
+            # `if not T: A else: B`  ==  `if T: B else: A`   (also with B empty)
+            out.append((pt, cur.orelse, cur))
+            out.append((None, cur.body, cur.body[0]))
+            break
         out.append((cur.test, cur.body, cur))
-        if len(cur.orelse) == 1 and isinstance(cur.orelse[0], ast.If):
+        if not terminal:
             cur = cur.orelse[0]
             continue
         if cur.orelse:
